@@ -254,6 +254,10 @@ func (vm *VM) FindElementWithModule(name *IDName) (Element, *Module, error) {
 	if moduleID >= 0 {
 		extModuleID = moduleID
 	}
+	// a name of the native scope (no module is running: input-variable texts) belongs to the native module
+	if extModuleID < 0 {
+		return elem, NativeCodeModule, nil
+	}
 	return elem, vm.moduleGraph.GetModuleByID(extModuleID), nil
 }
 
